@@ -375,3 +375,7 @@ for fn in ("merger_iter", "merger_get", "merger_get_prefix", "merger_get_range")
         loops="loops/mg_lookup.json", unwind=16, timeout=600, slice=1, strength="U", functions=[fn],
         assumptions=["per-source lookups, iterator registration, merger_iter_add_entry, merger_iter_init / free and mtbl_iter_init replaced by capture contracts whose call-site requirements are the sequencing obligations; up to 2^28 sources",
                      "merger_iter_add_entry's own behaviour (heap push of a filled entry): groups mg_lookup, heap_push (bounded)"])
+add("mg_free_dfcc", ["C18"], ["tu/merger_free_dfcc.c"], "h_merger_free_dfcc", mode="dfcc", enforce="merger_iter_free/merger_iter_free__spec",
+    replace=["mtbl_iter_destroy/mtbl_iter_destroy__cap", "free/free__cap", "heap_destroy/heap_destroy__cap", "entry_vec_destroy/entry_vec_destroy__cap", "iter_vec_destroy/iter_vec_destroy__cap", "ubuf_destroy/ubuf_destroy__cap"],
+    loops="loops/mg_free.json", unwind=16, timeout=600, slice=1, strength="U", functions=["merger_iter_free"],
+    assumptions=["destructors and free replaced by capture contracts; up to 2^28 sources", "that the ownership list holds every iterator obtained: groups mg_*_dfcc"])
